@@ -1,7 +1,12 @@
 #!/bin/bash
-# Offline setup: make sure hypothesis is importable by /venv/bin/python.
+# Offline setup: hypothesis importable by /venv/bin/python; atheris (coverage-guided tier of the
+# thorough checks of C08/C15/C18) into /verif/.deps from the offline wheelhouse.
 cd "$(dirname "$0")" || exit 1
 if ! /venv/bin/python -c "import hypothesis" 2>/dev/null; then
   /venv/bin/pip install --no-index --find-links /opt/veriftools/wheels hypothesis || exit 1
 fi
-/venv/bin/python -c "import hypothesis, audiolazy; print('setup ok: hypothesis', hypothesis.__version__)" 2>/dev/null || exit 1
+if ! PYTHONPATH="$PWD/.deps" /venv/bin/python -c "import atheris" 2>/dev/null; then
+  /venv/bin/pip install -q --no-index --find-links /opt/veriftools/wheels --target "$PWD/.deps" atheris \
+    || echo "setup: atheris could not be installed; the atheris tier of the thorough checks will report a harness error"
+fi
+/venv/bin/python -W ignore -c "import hypothesis, audiolazy; print('setup ok: hypothesis', hypothesis.__version__)" || exit 1
